@@ -64,6 +64,25 @@ def run(rng):
     eta = -1.0 if proto else rng.choice([-1.0, -1.0, 0.0, 0.5, 0.9])
     est = make(rng, eta, slow=proto)
     epochs = rng.choice([2, 3]) if proto else rng.choice([1, 1, 2, 3])
+    if not proto and rng.random() < 0.15:
+        # a pruning row module on rows with structure: a few rows unlike everything (their categories never reach phi and
+        # are pruned - possibly all categories of a round), then groups of near copies of one profile (categories that
+        # become permanent, so later rounds remove nothing): rows orphaned by one round are re-labelled by the next
+        import artlib
+        n = m = rng.randrange(5, 10)
+        lone = rng.choice([1, 2, 3])
+        prof = [np.array([rng.random() for _ in range(m)]) for _ in range(rng.choice([1, 2]))]
+        rows = [np.array([rng.choice([0.0, 0.05, 0.9, 1.0]) for _ in range(m)]) for _ in range(lone)]
+        rows += [np.clip(prof[rng.randrange(len(prof))] + rng.choice([-0.02, -0.01, 0.01, 0.02]), 0, 1) for _ in range(n - lone)]
+        X = np.array(rows)
+        X[rng.randrange(n), rng.randrange(m)] += 0.03
+        eta = -1.0
+        with contextlib.redirect_stdout(io.StringIO()):
+            ma = artlib.TopoART(artlib.FuzzyART(rho=rng.choice([0.7, 0.8, 0.9]), alpha=1e-2, beta=1.0), beta_lower=0.5, tau=rng.choice([2, 3]), phi=2)
+        mk = lambda: artlib.FuzzyART(rho=0.3, alpha=1e-2, beta=1.0)
+        est = artlib.BARTMAP(ma, mk(), eta=eta)
+        est._verif_mk_b = mk
+        epochs = 1
     rep = {"X": X.tolist(), "eta": eta, "shape": [n, m], "max_iter": epochs,
            "module_b": type(est.module_b).__name__ + repr({k: v for k, v in est.module_b.params.items()}),
            "module_a": type(est.module_a).__name__ + repr({k: (v if not hasattr(v, "get_params") else type(v).__name__) for k, v in est.module_a.params.items()})}
@@ -118,7 +137,12 @@ def run(rng):
             cover += np.outer(R[k], Cc[k]).astype(int)
         if not np.all(cover == 1):
             noise = [i for i, l in enumerate(ra) if l == -1]
-            if type(est.module_a).__name__ == "TopoART" and noise and np.all(np.delete(cover, noise, axis=0) == 1) and np.all(cover[noise] == 0):
+            # the recorded finding is exactly this: the LAST pruning round removed every category, so every row presented up
+            # to it is noise and the rows presented since (sample_counter_ mod tau of them, the last ones) have a category.
+            # Noise rows in any other pattern (e.g. left over from an earlier round although later rounds ran) are not it.
+            since = int(est.module_a.sample_counter_) % int(est.module_a.tau) if type(est.module_a).__name__ == "TopoART" else 0
+            if (type(est.module_a).__name__ == "TopoART" and noise and noise == list(range(0, n - since))
+                    and np.all(np.delete(cover, noise, axis=0) == 1) and np.all(cover[noise] == 0)):
                 f("topo-row-module-noise-rows", f"rows {noise} were labelled -1 (noise) by the pruning TopoART row module and belong to no bicluster")
             else:
                 f("partition", "some cell belongs to no bicluster or to several")
